@@ -274,10 +274,17 @@ Definition d_set (qn v : str) (ch : list ndata) (d : ndata) : ndata :=
   | None => dw_attrs d (d_attrs d ++ [mk_attr qn v])
   | Some k => dw_attrs d (set_value_at k v (d_attrs d))
   end.
+(* Element.unset(name): an UNPREFIXED name designates the attribute in no
+   namespace (first without prefix and with that local name), deleted by position
+   (repaired in 4117181); a prefixed name goes through getAttribute and
+   list.remove, i.e. Attribute.__eq__ *)
+Definition is_prefixed (qn : str) : bool :=
+  match split_prefix qn with (Some _, _) => true | (None, _) => false end.
 Definition d_unset (quirk : amode) (qn : str) (ch : list ndata) (d : ndata) : ndata :=
-  match get_attr_chain qn None ch with
-  | None => d                        (* attributes.remove(None) raises, swallowed *)
-  | Some k => dw_attrs d (attrs_remove quirk k (d_attrs d))
+  match set_target qn ch d with
+  | None => d                        (* nothing / attributes.remove(None) raises, swallowed *)
+  | Some k => dw_attrs d (if is_prefixed qn then attrs_remove quirk k (d_attrs d)
+                          else remove_nth k (d_attrs d))
   end.
 Definition d_rename (qn : str) (d : ndata) : ndata :=
   let '(p, n) := split_prefix qn in dw_name (dw_prefix d p) n.
@@ -406,7 +413,8 @@ Inductive op :=
 | OChildAtPath (p : id) (path : str)
 | OChildrenAtPath (p : id) (path : str)
 | OGetAttr (x : id) (qn : str) (ns : option (option str))
-| ONamespace (x : id).
+| ONamespace (x : id)
+| OSetItem (p : id) (idx : Z) (x : id).        (* p[idx] = x *)
 
 Definition upd_data (s : store) (x : id) (g : ndata -> ndata) : store :=
   match get s x with Some c => set s x (w_data c (g (c_data c))) | None => s end.
@@ -454,6 +462,14 @@ Definition m_detach_by_equality (s : store) (x : id) : store :=
     end
   end.
 
+(* Element.remove(child): only a child of this very node is detached (2162efb) *)
+Definition m_remove (s : store) (p x : id) : store * result :=
+  match get s x with
+  | Some cx => if opt_eqb N.eqb (c_parent cx) (Some p) then (m_detach s x, RNodes [x])
+               else (s, RNodes [])
+  | None => (s, RNodes [])
+  end.
+
 (* children.append(child); child.parent = self *)
 Definition m_append1 (s : store) (p x : id) : store :=
   set_parent (upd_kids s p (fun k => k ++ [x])) x (Some p).
@@ -469,7 +485,7 @@ Definition m_replace (s : store) (p c : id) (content : list id) : store * result
   match index_of c (kids_of s p) with
   | None => (s, RErr)
   | Some index =>
-    let s1 := m_detach s c in
+    let s1 := fst (m_remove s p c) in
     (fst (fold_left (fun (st : store * nat) node =>
                        let (s', i) := st in
                        (m_insert (m_detach s' node) p node (Z.of_nat i), S i))
@@ -495,8 +511,8 @@ Fixpoint m_prune (fuel : nat) (s : store) (x : id) : store :=
                            (s', if cell_empty_all s' c then snd st ++ [c] else snd st))
                         (kids_of s x) (s, []) in
     fold_left (fun s' p => match index_of p (kids_of s' x) with
-                           | Some k => upd_kids s' x (remove_nth k)
-                           | None => s'
+                           | Some k => set_parent (upd_kids s' x (remove_nth k)) p None
+                           | None => s'        (* del l[None] raises *)
                            end) (snd st) (fst st)
   end.
 
@@ -575,7 +591,7 @@ Definition m_children_at (s : store) (x : id) (path : str) : result :=
   let parts := filter nonempty (split_slash path) in
   match parts with
   | [] => RErr                                   (* parts[-1] of an empty list *)
-  | [_] => RNodes (m_get_children s x (Some path) None)     (* the path as given, not parts[0] *)
+  | [one] => RNodes (m_get_children s x (Some one) None)    (* parts[0] (repaired in a8dfd54) *)
   | _ =>
     match m_walk s x (removelast parts) with
     | None => RNodes []
@@ -592,7 +608,7 @@ Definition step (quirk : amode) (s : store) (o : op) : store * result :=
     (mkS ((r, mkC None [] (new_data qn ns)) :: s_cells s) (N.succ r), RNodes [r])
   | OAppend p xs => (fold_left (fun s' x => m_append1 s' p x) xs s, RNone)
   | OInsert p x idx => (m_insert s p x idx, RNone)
-  | ORemove _ x => (m_detach s x, RNodes [x])
+  | ORemove p x => m_remove s p x
   | ODetach x => (m_detach s x, RNodes [x])
   | OReplace p c content => m_replace s p c content
   | ODetachChildren p => m_detach_children s p
@@ -613,6 +629,8 @@ Definition step (quirk : amode) (s : store) (o : op) : store * result :=
   | OChildrenAtPath p path => (s, m_children_at s p path)
   | OGetAttr x qn ns => (s, RAttr (get_attr_chain qn ns (chain_of s x)))
   | ONamespace x => (s, RNs (ns_uri_chain (chain_of s x)))
+  | OSetItem p idx x =>                         (* `if index < len(self.children)`: insert + parent link *)
+    if (idx <? Z.of_nat (length (kids_of s p)))%Z then (m_insert s p x idx, RNone) else (s, RNone)
   end.
 
 Definition run (quirk : amode) (s : store) (h : list op) : store :=
@@ -735,6 +753,17 @@ with prune_f (f : forest) : forest :=
                if tree_empty_all t' then prune_f f' else F1 t' (prune_f f')
   end.
 
+(* ... and become parentless nodes of their own (their parent link is cleared:
+   3923f6f); a node that goes has no children left *)
+Fixpoint pruned_t (t : tree) : forest :=
+  match t with T i d k => pruned_f k end
+with pruned_f (f : forest) : forest :=
+  match f with
+  | F0 => F0
+  | F1 t f' => let t' := prune_t t in
+               fapp (pruned_t t) (if tree_empty_all t' then F1 t' (pruned_f f') else pruned_f f')
+  end.
+
 (* clone: same shape, fresh identities n, n+1, ... in document order *)
 Fixpoint clone_t (n : N) (acc : list ndata) (t : tree) : tree * N :=
   match t with
@@ -821,16 +850,16 @@ Fixpoint ref_path (f : forest) (node : id) (steps : list str) : option id :=
 Definition live (f : forest) (x : id) : bool := mem x (ids_f f).
 
 (* The reference step.  None = the reference says nothing about this edit:
-   - a node that is not (or no longer: pruned away) part of the forest;
+   - a node that is not part of the forest;
    - append/insert of a node that still has a parent, or into its own subtree;
      (insert positions follow list.insert: negative from the end, clamped);
-   - remove(child) on an element that is not the child's parent;
    - replaceChild whose content is not made of distinct nodes other than the
      child, or contains a child of the same parent (the position is then
      ambiguous), or an ancestor;
-   - unset/remove of an attribute when an EARLIER attribute of the element has
-     the same local name (list.remove goes by Attribute.__eq__);
-   - childrenAtPath with an empty path or a one-step path written with slashes. *)
+   - unset with a PREFIXED name / remove of an attribute object when an EARLIER
+     attribute of the element has the same local name (list.remove goes by
+     Attribute.__eq__);
+   - childrenAtPath with an empty path. *)
 Definition ref_step (rs : rstate) (o : op) : option (rstate * result) :=
   let f := r_forest rs in
   let n := r_next rs in
@@ -845,8 +874,14 @@ Definition ref_step (rs : rstate) (o : op) : option (rstate * result) :=
                       | None => None
                       end) xs (if live f p then Some f else None)) RNone
   | OInsert p x idx => ret (ref_place f p x (py_pos idx (length (kids_ids f p)))) RNone
-  | ORemove p x =>
-    if mem x (kids_ids f p) then ret (ref_detach f x) (RNodes [x]) else None
+  | ORemove p x =>                       (* only a child of p is removed; otherwise nothing *)
+    if live f p then
+      match parent_of f x with
+      | Some (Some q) => if N.eqb q p then ret (ref_detach f x) (RNodes [x]) else Some (rs, RNodes [])
+      | Some None => Some (rs, RNodes [])
+      | None => None
+      end
+    else None
   | ODetach x => ret (ref_detach f x) (RNodes [x])
   | OReplace p c content =>
     match index_of c (kids_ids f p) with
@@ -869,21 +904,25 @@ Definition ref_step (rs : rstate) (o : op) : option (rstate * result) :=
     | Some tp => Some (mkR (fapp (rkids tp) (sub_f f p (with_kids F0))) n, RNodes (roots (rkids tp)))
     | None => None
     end
-  | OPrune x => if live f x then Some (mkR (sub_f f x prune_t) n, RNone) else None
+  | OPrune x =>
+    match find_f f x with
+    | Some tx => Some (mkR (fapp (pruned_t tx) (sub_f f x prune_t)) n, RNone)
+    | None => None
+    end
   | OAddAttr x qn v => ret (ref_data f x (fun d => dw_attrs d (d_attrs d ++ [mk_attr qn v]))) RNone
   (* set: the attribute designated by the name (set_target: unprefixed = no
      namespace) gets the value, or a new attribute is appended; nothing else moves *)
   | OSet x qn v => ret (ref_data f x (d_set qn v (rchain f x))) RNone
-  | OUnset x qn =>
-    match get_attr_chain qn None (rchain f x) with
-    | None => if live f x then Some (rs, RNone) else None
-    | Some k =>
-      match find_f f x with
-      | Some tx => if unshadowed k (d_attrs (rdata tx))
-                   then ret (ref_data f x (fun d => dw_attrs d (remove_attr_at k (d_attrs d)))) RNone
-                   else None
-      | None => None
+  | OUnset x qn =>                       (* the attribute set_target designates goes, by position *)
+    match find_f f x with
+    | Some tx =>
+      match set_target qn (rchain f x) (rdata tx) with
+      | None => Some (rs, RNone)
+      | Some k => if negb (is_prefixed qn) || unshadowed k (d_attrs (rdata tx))
+                  then ret (ref_data f x (fun d => dw_attrs d (remove_attr_at k (d_attrs d)))) RNone
+                  else None
       end
+    | None => None
     end
   | ORemoveAttr x k =>
     match find_f f x with
@@ -928,10 +967,8 @@ Definition ref_step (rs : rstate) (o : op) : option (rstate * result) :=
       let steps := filter nonempty (split_slash path) in
       match steps with
       | [] => None
-      | [one] => if list_eqb N.eqb one path
-                 then let '(nm, ns') := ref_key f p one None in
-                      Some (rs, RNodes (ref_children f p (Some nm) ns'))
-                 else None
+      | [one] => let '(nm, ns') := ref_key f p one None in
+                 Some (rs, RNodes (ref_children f p (Some nm) ns'))
       | _ => match ref_path f p (removelast steps) with
              | None => Some (rs, RNodes [])
              | Some node => let '(nm, ns') := ref_key f node (last steps []) None in
@@ -948,6 +985,12 @@ Definition ref_step (rs : rstate) (o : op) : option (rstate * result) :=
       end
     else None
   | ONamespace x => if live f x then Some (rs, RNs (ns_uri_chain (rchain f x))) else None
+  | OSetItem p idx x =>                  (* an insert when idx is below the number of children *)
+    if live f p then
+      if (idx <? Z.of_nat (length (kids_ids f p)))%Z
+      then ret (ref_place f p x (py_pos idx (length (kids_ids f p)))) RNone
+      else Some (rs, RNone)
+    else None
   end.
 
 Fixpoint ref_run (rs : rstate) (h : list op) : option rstate :=
